@@ -122,12 +122,20 @@ func Run(version string) (exitCode int) {
 
 	// debug args
 	if *dbgAst {
-		debugAst(progSrc, rValues)
+		if err := debugAst(progSrc, rValues); err != nil {
+			fmt.Println()
+			printError(err)
+			return 1
+		}
 		return 0
 	}
 
 	if *dbgLex {
-		debugLex(progSrc, rValues)
+		if err := debugLex(progSrc, rValues); err != nil {
+			fmt.Println()
+			printError(err)
+			return 1
+		}
 		return 0
 	}
 
